@@ -136,6 +136,20 @@ fn handle(line: &str) -> String {
                 Err(_) => "ERR".to_string(),
             })
         }
+        "verifyrep" => {
+            // verifyrep <prefix> <unit> <count> <suffix>: the program prefix ++ unit * count ++ suffix (for programs too long to spell out)
+            let mut prog = unhex(parts[1]);
+            let unit = unhex(parts[2]);
+            let count: usize = parts[3].parse().unwrap();
+            for _ in 0..count {
+                prog.extend_from_slice(&unit);
+            }
+            prog.extend_from_slice(&unhex(parts[4]));
+            catch(move || match rbpf::EbpfVmMbuff::new(Some(&prog)) {
+                Ok(_) => "OK".to_string(),
+                Err(_) => "ERR".to_string(),
+            })
+        }
         "run" => cmd_run(&kv(&parts[1..])),
         "asm" => {
             let src = String::from_utf8_lossy(&unhex(parts[1])).into_owned();
